@@ -427,6 +427,30 @@ func (t *trans) pblock(list []ast.Stmt, c pctx) string {
 		panic("translate: unsupported assignment " + exprText(t.p.fset, s.Lhs[0]))
 	case *ast.IfStmt:
 		if s.Init != nil {
+			// if p := g.field.Load(); p != nil { v = *p }  — v keeps its value when the pointer is not set
+			if as, ok := s.Init.(*ast.AssignStmt); ok && len(as.Lhs) == 1 && len(as.Rhs) == 1 && s.Else == nil && len(s.Body.List) == 1 {
+				if call, ok := as.Rhs[0].(*ast.CallExpr); ok {
+					if sel, ok := call.Fun.(*ast.SelectorExpr); ok && sel.Sel.Name == "Load" {
+						if ety, ok := t.optFields[exprText(t.p.fset, sel.X)]; ok {
+							pv := exprText(t.p.fset, as.Lhs[0])
+							if exprText(t.p.fset, s.Cond) == pv+" != nil" {
+								deref := func(e ast.Expr) bool {
+									st, ok := e.(*ast.StarExpr)
+									return ok && exprText(t.p.fset, st.X) == pv
+								}
+								if asg, ok := s.Body.List[0].(*ast.AssignStmt); ok && len(asg.Lhs) == 1 && deref(asg.Rhs[0]) {
+									v := exprText(t.p.fset, asg.Lhs[0])
+									if t.env[v] != ety {
+										panic("translate: type of the variable assigned from an atomic pointer")
+									}
+									return fmt.Sprintf("let %s : %s := match %s with | some x_ => x_ | none => %s\n  %s",
+										t.name(v), leanTy(ety), cbName(exprText(t.p.fset, sel.X)), t.name(v), rest())
+								}
+							}
+						}
+					}
+				}
+			}
 			panic("translate: if with init")
 		}
 		if t.pureStmts([]ast.Stmt{s}) {
@@ -538,7 +562,11 @@ func (t *trans) group(as *ast.AssignStmt, begin *ast.CallExpr, after []ast.Stmt,
 	body, restStmts := after[:end], after[end+1:]
 	label, ok := t.p.consts[exprText(t.p.fset, begin.Args[0])]
 	if !ok {
-		panic("translate: group label is not a constant: " + exprText(t.p.fset, begin.Args[0]))
+		if ty, isVar := t.env[exprText(t.p.fset, begin.Args[0])]; isVar && ty == "str" {
+			label = t.name(exprText(t.p.fset, begin.Args[0]))
+		} else {
+			panic("translate: group label is not a constant: " + exprText(t.p.fset, begin.Args[0]))
+		}
 	}
 	standalone := exprText(t.p.fset, begin.Args[1])
 	if standalone != "true" && standalone != "false" {
@@ -844,6 +872,7 @@ func (t *trans) progFunction(key string, fx bool) string {
 	t.recvName, t.recvType = "", ""
 	t.callbacks = map[string][]gty{}
 	t.listFields = map[string]gty{}
+	t.optFields = map[string]gty{}
 	t.hoistedIdx = map[*ast.IndexExpr]string{}
 	typeParams = map[string]bool{}
 	defer func() { typeParams = map[string]bool{} }()
@@ -932,6 +961,20 @@ func (t *trans) progFunction(key string, fx bool) string {
 						params = append(params, fmt.Sprintf("(%s : (%s → Prog) → Prog)", cbName(fkey), leanTy(ety)))
 						continue
 					}
+				}
+				if ix, ok := f.Type.(*ast.IndexExpr); ok && exprText(t.p.fset, ix.X) == "generatorImpl" {
+					// the implementation behind a Generator: drawn from like a generator
+					ety := goTy(ix.Index)
+					t.callbacks[fkey] = []gty{ety}
+					params = append(params, fmt.Sprintf("(%s : (%s → Prog) → Prog)", cbName(fkey), leanTy(ety)))
+					continue
+				}
+				if ix, ok := f.Type.(*ast.IndexExpr); ok && exprText(t.p.fset, ix.X) == "atomic.Pointer" {
+					// written elsewhere (String()), read here with Load(): whatever it holds at the time of the call
+					ety := goTy(ix.Index)
+					t.optFields[fkey] = ety
+					params = append(params, fmt.Sprintf("(%s : Option %s)", cbName(fkey), leanTy(ety)))
+					continue
 				}
 				if at, ok := f.Type.(*ast.ArrayType); ok && at.Len == nil {
 					// a slice: of values, or of generators
